@@ -3,15 +3,18 @@ PROP = {
   "saml2_tophat.attribute_converter:AttributeConverter.lcd_ava_from"
  ],
  "bounded": [
-  "e2e_roundtrip"
+  "e2e_roundtrip",
+  "issue_roundtrip"
  ],
  "level": "other",
- "explanation": "C08 is an end-to-end statement over two configured entities, every signing / encryption combination and every string; only one small piece of it is under a deductive contract (AttributeConverter.lcd_ava_from, the fall-back reader: one value per asserted value, in order, each the asserted text trimmed; name trimmed); for the rest the deciding steps are ElementTree serialisation and parsing (external, E-ET / E-PARSE), the external signing tool, and reflection-driven attribute conversion. What this check offers is a BOUNDED native round trip only, labelled as such and never counted as proved: an IdP and an SP built from each other's generated metadata exchange UNSIGNED, UNENCRYPTED HTTP-POST responses for a grid of hostile identities, NameID formats, authentication contexts and lifetimes; acceptance, subject, attributes (after mapping and trimming), InResponseTo, issuer, context and session expiry are compared with what was asserted, and an independent XML parser checks that values did not change the message structure. The serialisation half is additionally covered by C12's round trip of every schema class.",
+ "explanation": "C08 is an end-to-end statement over two configured entities, every signing / encryption combination and every string; only one small piece of it is under a deductive contract (AttributeConverter.lcd_ava_from, the fall-back reader: one value per asserted value, in order, each the asserted text trimmed; name trimmed); for the rest the deciding steps are ElementTree serialisation and parsing (external, E-ET / E-PARSE), the external signing tool, and reflection-driven attribute conversion. What this check offers beyond that is BOUNDED native round trips only, labelled as such and never counted as proved: (1) an IdP and an SP built from each other's generated metadata exchange UNSIGNED, UNENCRYPTED HTTP-POST responses for a grid of hostile identities, NameID formats, authentication contexts and lifetimes; acceptance, subject, attributes (after mapping and trimming), InResponseTo, issuer, context and session expiry are compared with what was asserted, and an independent XML parser checks that values did not change the message structure. The serialisation half is additionally covered by C12's round trip of every schema class. (2) issue_roundtrip: every sign_response x sign_assertion x encrypt_assertion x advice mode x self-contained x certificate-source combination is built by the real Server.create_authn_response and read by the real SP, with a STAND-IN for the xmlsec1 executable (bounded/xmlsec1_standin.py, run as a child process by the unmodified backend): not cryptography, but its signatures digest the referenced element including nested signatures, so a wrong signing order or a signature over the wrong element makes the SP reject.",
  "not_decided": [
-  "every sign_response x sign_assertion x encrypt_assertion x algorithm combination (needs xmlsec1, not installed)",
+  "every sign_response x sign_assertion x encrypt_assertion combination with the REAL xmlsec1 and every digest / signature algorithm (not installed; issue_roundtrip uses a stand-in tool)",
   "Redirect / SOAP bindings of the response (C14 covers the encoders)",
   "the for-all-strings claim about values (E-ET: xml.etree escapes text and attribute values)",
-  "AttributeConverter.ava_from / fro / to_ (draft contract kept in contracts/_unproved_ava_from_contract.txt: not discharged within budget)"
+  "AttributeConverter.ava_from / fro / to_ (draft contract kept in contracts/_unproved_ava_from_contract.txt: not discharged within budget)",
+  "observation (not judged): encrypt_assertion for an SP without any certificate sends the assertion neither encrypted nor signed even when sign_assertion is set (not a supported combination)"
  ],
- "id": "C08"
+ "id": "C08",
+ "assumptions": []
 }
